@@ -14,14 +14,11 @@ OBLIGATIONS = [
     Ob('reader_records_more', 'C04/rd_oas.c', [RO], ir='ni', stubs=TOKSTUBS, defines={'RC': 0, 'REFL': 0}, wrap_files=True,
        what='read_oas on spec-encoded records (token stream): POLYGON with a general point list, PLACEMENT by name with each rotation code and the reflection bit, TEXT with inline string',
        bound='one record per cell; values within 2^20 (polygon: 2^10)',
-       variants=[{'ELEM': 4}] + [{'ELEM': 3, 'RC': r, 'REFL': f} for r in range(4) for f in (0, 1)] + [{'ELEM': 5, 'REC': r, 'VERT': v, 'LIM': 64} for r in (23, 24, 25) for v in (0, 1)] + [{'ELEM': 6, 'CT': t, 'LIM': 64} for t in range(26)], unwind=20, timeout=400, mem_gb=12, nvec=5),
+       variants=[{'ELEM': 4}, {'ELEM': 2, 'LIM': 64}] + [{'ELEM': 3, 'RC': r, 'REFL': f} for r in range(4) for f in (0, 1)] + [{'ELEM': 5, 'REC': r, 'VERT': v, 'LIM': 64} for r in (23, 24, 25) for v in (0, 1)] + [{'ELEM': 6, 'CT': t, 'LIM': 64} for t in range(26)], unwind=20, timeout=400, mem_gb=12, nvec=5),
     Ob('reader_properties', 'C04/rd_oas.c', [RO], ir='ni', stubs=TOKSTUBS, defines={'RC': 0, 'REFL': 0, 'ELEM': 7}, wrap_files=True,
        what='read_oas on a RECTANGLE followed by two PROPERTY records: inline name, explicit value list [unsigned integer, PROPSTRING reference], then re-use of name and value list from the modal variables (PROPERTY with V=1 / LAST_PROPERTY), the PROPSTRING defined afterwards: both properties carry the name and [the integer - still an integer -, the referenced string], in order',
-       bound='one element, two properties, two values; the integer value arbitrary (64 bit); reference types 13 / 14 / 15',
-       variants=[{'PREC': 28, 'STRREF': 0}, {'PREC': 29, 'STRREF': 1}], unwind=20, timeout=900, mem_gb=14, mem_est_gb=10, nvec=5),
-    Ob('reader_properties_all', 'C04/rd_oas.c', [RO], ir='ni', stubs=TOKSTUBS, defines={'RC': 0, 'REFL': 0, 'ELEM': 7}, wrap_files=True,
-       what='as reader_properties, all six combinations of the re-use record and the reference type', bound='as reader_properties',
-       variants=[{'PREC': r, 'STRREF': k} for r in (28, 29) for k in (0, 1, 2)], unwind=20, timeout=1200, mem_gb=14, mem_est_gb=10, nvec=5, tier='thorough'),
+       bound='one element; two properties with two values (reference types 13 / 14 / 15, re-use by record 28 with V = 1 or by record 29), or one property with four values named through a PROPNAME table; integers 64 bit, real any bits, string byte arbitrary',
+       variants=[{'PREC': r, 'STRREF': k} for r in (28, 29) for k in (0, 1, 2)] + [{'ELEM': 12}], unwind=20, timeout=900, mem_gb=14, nvec=5),
     Ob('repetition_reader_vs_reference', 'C02/rep_oas.c', [P + '21oasis_read_repetitionERNS_11OasisStreamEdRNS_10RepetitionE', '_ZNK5gdstk10Repetition11get_offsetsERNS_5ArrayINS_4Vec2EEE'], ir='ni', stubs=[x for x in TOKSTUBS if 'real' not in x and 'string' not in x],
        model='ie', defines={'MODE': 1, 'B': 1, 'IE_BITS': 14, 'REAL_TOL': 1},
        what='oasis_read_repetition on a specification-encoded repetition field of each type 1..11 (grids with unsigned spaces, explicit x / y lists with and without grid multiplier, arbitrary lattices by g-delta, explicit displacement lists with and without grid): the Repetition built enumerates (real Repetition::get_offsets, C11) exactly the offsets the specification defines',
@@ -32,6 +29,10 @@ OBLIGATIONS = [
        what='read_oas on a PATH record: half-width, each extension scheme (flush / half-width / explicit signed extension per end), a point list of two deltas (Manhattan 2-deltas or general g-deltas), position: loads as one simple path whose spine is the position plus the running sum of the deltas, with the given half-width at every point and the end style the scheme denotes',
        bound='one PATH per cell; values within +-64 (bit-precise doubles), 32-bit layer / datatype; extension schemes 0x05, 0x0A, 0x0F, 0x07, 0x0D',
        variants=[{'EXT': e, 'PLT': t} for e in (0x05, 0x0A, 0x0F) for t in (2, 4)] + [{'EXT': 0x07, 'PLT': 4}, {'EXT': 0x0D, 'PLT': 2}], unwind=20, timeout=900, mem_gb=12, mem_est_gb=6, nvec=20),
+    Ob('reader_tables_and_modes', 'C04/rd_oas.c', [RO], ir='ni', stubs=TOKSTUBS, defines={'RC': 0, 'REFL': 0, 'TAB': 0}, wrap_files=True,
+       what='read_oas: cells, label text and placement targets given through CELLNAME / TEXTSTRING tables that follow the cells (implicit numbering, or explicit numbers out of order), resolved at END; PLACEMENT with real magnification and angle (record 18); XYRELATIVE / XYABSOLUTE for TEXT and PLACEMENT with text string, text layer/type and placement cell re-used from the modal variables',
+       bound='two cells, one to three labels / references; positions within 2^20; magnification: every non-NaN double; angles 0, 90, 270, 45, -30 degrees',
+       variants=[{'ELEM': 9, 'TAB': t, 'RC': r, 'REFL': f} for t in (0, 1) for (r, f) in ((0, 0), (3, 1))] + [{'ELEM': 10, 'REFL': f, 'ANGV': a} for (f, a) in ((0, 0), (0, 90), (1, 270), (1, 45), (0, -30))] + [{'ELEM': 11}], unwind=20, timeout=600, mem_gb=12, nvec=10),
 ]
 BOUNDS = 'one cell, one or two RECTANGLE records; all field values symbolic within 2^20 (layer/datatype full 32 bits)'
 OUTSIDE = 'every other record kind: POLYGON with a symbolic point list (no verdict in 400 s), PLACEMENT and TEXT (memory blow-up > 11 GB in the END-of-file name resolution), PATH, TRAPEZOID, CTRAPEZOID, CIRCLE, PROPERTY, CBLOCK, name tables; the whole writer direction; harness variants ELEM 2..4 are kept in harness/C04/rd_oas.c for future engines but are not run'
